@@ -17,6 +17,9 @@ META = {
   "h_divide_counts": {"kind": "K", "functions": ["Multiplication.__divide_segment_and_connection_counts/__divide_counts"],
     "bounds": "segment with RC, KC = ANY non-negative integers (unbounded z3 Int), factor 2..6: counts become count // factor, other tags untouched",
     "timeout": {"quick": 120, "thorough": 300}, "twin": False},
+  "h_link_hash": {"kind": "L", "functions": ["gfapy.line.edge.link.equivalence.Equivalence.__hash__"],
+    "bounds": "every link of the 8 neighbourhood shapes and its complement: __hash__ returns an integer (CrossHair's set model does not call it, so the set membership inside multiply cannot expose a broken hash)",
+    "timeout": {"quick": 200, "thorough": 300}},
   "h_multiply": {"kind": "G",
     "functions": ["Multiplication.multiply/_compute_copy_names/__divide_segment_and_connection_counts/__clone_segment_and_connections/_distribute_links/_select_distribute_end",
                   "Line.clone", "Connection.connect", "Link.__hash__", "Gfa.rm"],
@@ -91,6 +94,28 @@ def h_divide_counts(rc: int, kc: int, factor: int) -> bool:
   g._Multiplication__divide_segment_and_connection_counts(s, k)
   return s.RC == rc // k and s.KC == kc // k and s.get("xx") == 5 and s.get("FC") is None
 
+def h_link_hash(si: int) -> bool:
+  """
+  pre: 0 <= si < NSH
+  post: _ == True
+  """
+  vp.enter("lh")
+  shape, xlines = SHAPES[vp.concretize(si, 0, NSH - 1)]
+  doc = ["S\tX\tAACCG"] + [t.replace("{e}", "5") for t in xlines] + REST
+  with NoTracing():
+    g = gfapy.Gfa(doc)
+    links = list(g.dovetails)
+  vp.reached("lh", shape)
+  for e in links:
+    # CrossHair models set membership without calling __hash__ (multiply puts circular links into a set):
+    # the method itself must return an integer, equal for a link and its complement
+    with NoTracing():
+      c = e.complement()
+    h1 = e.__hash__()
+    h2 = c.__hash__()
+    if not isinstance(h1, int) or not isinstance(h2, int): return False
+  return True
+
 def h_multiply(si: int, factor: int, pi: int, named: bool, star: bool, rci: int, erci: int) -> bool:
   """
   pre: 0 <= si < NSH and -1 <= factor <= 4 and 0 <= pi < 6
@@ -121,10 +146,6 @@ def h_multiply(si: int, factor: int, pi: int, named: bool, star: bool, rci: int,
   kwargs = {}
   if policy is not None: kwargs["distribute"] = policy
   if copy_names is not None: kwargs["copy_names"] = copy_names
-  for e in g.dovetails:
-    # (CrossHair models set membership without calling __hash__: exercise the method itself)
-    h1, h2 = e.__hash__(), e.complement().__hash__()
-    if not isinstance(h1, int) or h1 != h2: return False
   try:
     g.multiply(X, k, **kwargs)
   except gfapy.ArgumentError:
